@@ -23,7 +23,7 @@ def _cmp(op, rel):
 
 
 class Evaluator:
-    def __init__(self, f, classify, relation, opaque_switch, max_steps=2000, call_hook=None):
+    def __init__(self, f, classify, relation, opaque_switch, max_steps=2000, call_hook=None, prog=None, inline=None, depth=0):
         """classify(value) -> class name or None; relation(class_a, class_b) -> -1/0/1 or None;
         opaque_switch(bb, value, targets) -> successor block or None"""
         self.f = f
@@ -32,6 +32,9 @@ class Evaluator:
         self.opaque_switch = opaque_switch
         self.max_steps = max_steps
         self.call_hook = call_hook
+        self.prog = prog
+        self.inline = inline      # predicate on target Fn: inline it?
+        self.depth = depth
         self.trace = []
 
     def place_value(self, env, pl):
@@ -73,6 +76,25 @@ class Evaluator:
             return ("opaque", "cmp-unordered:%s,%s" % (ca, cb))
         self.trace.append("%s %s %s" % (ca, op, cb))
         return ("int", int(_cmp(op, rel)))
+
+    def _inline_target(self, cal):
+        if self.prog is None or self.inline is None:
+            return None
+        t = self.prog.fns.get(cal.get("resolved") or cal.get("path"))
+        if t is not None and self.inline(t):
+            return t
+        return None
+
+    def _call_closure(self, clos, args):
+        if clos[0] != "closure" or self.prog is None or clos[1] not in self.prog.fns:
+            raise Undecided("cannot evaluate closure %r" % (clos,))
+        cl = self.prog.fns[clos[1]]
+        sub = Evaluator(cl, self.classify, self.relation, self.opaque_switch, self.max_steps, self.call_hook, self.prog, self.inline, self.depth + 1)
+        sub.trace = self.trace
+        env = {1: ("tuple", clos[2])}
+        for i, a in enumerate(args):
+            env[2 + i] = a
+        return sub.run(env)
 
     def run(self, env):
         """deterministic evaluation: every branch must be decided"""
@@ -133,6 +155,8 @@ class Evaluator:
                     env[d[0]] = ("variant", last_seg(s.get("adt")), s.get("variant"), tuple(self.operand(env, o) for o in s.get("o", [])))
                 elif k == "tuple":
                     env[d[0]] = ("tuple", tuple(self.operand(env, o) for o in s.get("o", [])))
+                elif k == "closure":
+                    env[d[0]] = ("closure", s.get("closure"), tuple(self.operand(env, o) for o in s.get("o", [])))
                 else:
                     env[d[0]] = ("opaque", "stmt:%s" % k)
             t = blk["t"]
@@ -189,6 +213,22 @@ class Evaluator:
                 elif name == "branch" and last_seg(cal.get("trait")) == "Try" and args and args[0][0] == "variant" and args[0][1] in ("Result", "Option"):
                     okv = args[0][2] in ("Ok", "Some")
                     res = ("variant", "ControlFlow", "Continue" if okv else "Break", args[0][3] if len(args[0]) > 3 else ())
+                elif name == "then_with" and len(args) == 2 and args[0][0] == "ordering":
+                    res = args[0] if args[0][1] != 0 else self._call_closure(args[1], [])
+                elif name == "then" and len(args) == 2 and args[0][0] == "ordering" and args[1][0] == "ordering":
+                    res = args[0] if args[0][1] != 0 else args[1]
+                elif name == "reverse" and args and args[0][0] == "ordering":
+                    res = ("ordering", -args[0][1])
+                elif name in ("is_gt", "is_lt", "is_eq", "is_ne", "is_ge", "is_le") and args and args[0][0] == "ordering":
+                    r = args[0][1]
+                    res = ("int", int({"is_gt": r > 0, "is_lt": r < 0, "is_eq": r == 0, "is_ne": r != 0, "is_ge": r >= 0, "is_le": r <= 0}[name]))
+                elif self._inline_target(cal) is not None and self.depth < 6:
+                    tgt = self._inline_target(cal)
+                    sub = Evaluator(tgt, self.classify, self.relation, self.opaque_switch, self.max_steps, self.call_hook, self.prog, self.inline, self.depth + 1)
+                    sub.trace = self.trace
+                    res = sub.run({i + 1: a for i, a in enumerate(args)})
+                    if res is None:
+                        res = ("opaque", "call:%s" % name)
                 elif name in TRANSPARENT and args:
                     res = args[0]
                 if len(dst) == 1:
